@@ -28,7 +28,7 @@ ASSUMPTIONS = [
 ]
 
 IPS = ["192.0.2.7", "198.51.100.9", "2001:db8::5"]
-CERTS = [None, "ec-a", "rsa-a", "ed-a", "twin-a", "twin-b"]
+CERTS = [None, "ec-a", "rsa-a", "ed-a", "twin-a", "twin-b", "chain:ec-b:ec-a", "chain:ec-b:rsa-a"]
 
 
 def fp_of(kind):
@@ -119,6 +119,10 @@ def _real_components(case):
     return out
 
 
+def _leaf(kind):
+    return kind.split(":")[1] if kind and kind.startswith("chain:") else kind
+
+
 def reference(case):
     """Walk the chain: ('admit', None) | ('deny', response or None) | ('error', None)."""
     ip, fp = case["peer"], fp_of(case["cert"])
@@ -150,7 +154,7 @@ def reference(case):
                 if c["allowed"] is not None:
                     if fp is None:
                         return "deny", "60 Client certificate required\r\n"
-                    if case["cert"] not in c["allowed"]:
+                    if _leaf(case["cert"]) not in c["allowed"]:
                         return "deny", "61 Certificate not authorized\r\n"
     return "admit", None
 
@@ -358,7 +362,7 @@ def run_asm(case: dict):
     if ca is not None and case["path"].startswith(ca["prefix"]):
         if (ca["require_cert"] and presented is None) or (ca["allowed"] is not None and presented is None):
             ref = "60"
-        elif ca["allowed"] is not None and case["cert"] not in ca["allowed"]:
+        elif ca["allowed"] is not None and _leaf(case["cert"]) not in ca["allowed"]:
             ref = "61"
     if ref == "admit" and acl is not None:
         denied = acl["deny"] is not None and case["peer"] in acl["deny"]
